@@ -4,6 +4,7 @@ import (
 	"encoding/json"
 	"fmt"
 	"os"
+	"runtime"
 	"strconv"
 	"strings"
 	"sync/atomic"
@@ -338,7 +339,8 @@ func TestWorker(t *testing.T) {
 	budget := time.Duration(envInt("VERIF_BUDGET_S", 3600)) * time.Second
 	out := os.Stdout
 	if p := os.Getenv("VERIF_OUT"); p != "" {
-		f, err := os.Create(p)
+		// appended to: a worker that has grown too large hands over to a fresh process (see below)
+		f, err := os.OpenFile(p, os.O_CREATE|os.O_WRONLY|os.O_APPEND, 0o644)
 		if err != nil {
 			t.Fatal(err)
 		}
@@ -381,7 +383,21 @@ func TestWorker(t *testing.T) {
 	}
 	sampled := false
 	stride := envInt("VERIF_STRIDE", 1)
+	memLimit := uint64(envInt("VERIF_MEM_LIMIT_MB", 1500)) << 20
+	lastMem := time.Now()
 	for run := from; run < to && time.Since(start) < budget; run += stride {
+		// Goroutines a run leaves behind (handlers that are never released, timers that never fire) stay parked for the
+		// life of the process, with everything they refer to. Over ten minutes that is gigabytes: when the process has
+		// grown past the limit it says where it stopped and ends; the driver starts a fresh one from there.
+		if cur := os.Getenv("VERIF_CUR"); cur != "" && ((run-from)/stride%50 == 49 || time.Since(lastMem) > 2*time.Second) {
+			lastMem = time.Now()
+			var ms runtime.MemStats
+			runtime.ReadMemStats(&ms)
+			if ms.Sys > memLimit {
+				os.WriteFile(cur+".next", []byte(strconv.Itoa(run)), 0o644)
+				return
+			}
+		}
 		what.Store(fmt.Sprintf("%s seed=%d run=%d", prop, seed, run))
 		atomic.AddInt64(&heartbeat, 1)
 		if cur := os.Getenv("VERIF_CUR"); cur != "" {
